@@ -31,9 +31,16 @@ class Path:
         self.stores = []     # (path, poly, node) in order
         self.events = []     # ("store", path, poly, node) / ("call", callee, [args], node) in order
         self.end = None
+        self.epoch = ""
 
     def get(self, path):
-        return self.env.get(path, lin.p_atom(path))
+        v = self.env.get(path)
+        if v is not None:
+            return v
+        if self.epoch and any(c in path for c in ("->", "[", "*", ".")):
+            # memory read after a loop may have changed it: a value of its own, not the one read before
+            return lin.p_atom("%s@%s" % (path, self.epoch))
+        return lin.p_atom(path)
 
     def stored(self, path):
         """the last value this path stored into `path` (None if it did not), whether or not a later
@@ -49,11 +56,22 @@ class Path:
 
 
 def _wrap(s):
-    if s and (s[0] == "(" or all(ch.isalnum() or ch in "_$" for ch in s)):
+    if s and (s[0] == "(" or all(ch.isalnum() or ch in "_$@+" for ch in s)):
         return s
-    if all(ch.isalnum() or ch in "_$>.-[]" for ch in s) and not s.startswith("-") and " " not in s:
+    if all(ch.isalnum() or ch in "_$>.-[]@+" for ch in s) and not s.startswith("-") and " " not in s:
         return s
     return "(%s)" % s
+
+
+def plain(s):
+    """a term without the marks of loop abstraction (x@L1, p->f@L2+): for rules that compare within one
+    trip through a loop"""
+    import re as _re
+    if isinstance(s, tuple):
+        return tuple(plain(x) for x in s)
+    if isinstance(s, list):
+        return [plain(x) for x in s]
+    return _re.sub(r"@L\d+\+?", "", s) if isinstance(s, str) else s
 
 
 class _Ev:
@@ -170,7 +188,7 @@ class _Ev:
                 b = fn.strip(nd["ch"][0], casts=False)
                 if fn.nodes[b]["k"] == "DeclRef" and fn.nodes[b]["name"] in p.env:
                     return p.get("%s.%s" % (_wrap(lin.p_str(p.env[fn.nodes[b]["name"]])), nd["field"]))
-            return lin.p_atom(own)
+            return p.get(own)
         if k == "Un":
             op = nd["op"]
             if op == "*":
@@ -436,6 +454,7 @@ def run_paths(fn, P=None, limit=4096, start=None, stops=None):
         if mem or fn.calls(root=ln):
             for key in [k_ for k_ in p.env if any(c in k_ for c in ("->", "[", "*", "."))]:
                 del p.env[key]
+            p.epoch = "L%d%s" % (loop_no[ln], "+" if again else "")
         # cached values of expressions inside the loop are stale
         for e in fn.walk(ln):
             p.val.pop(e, None)
@@ -457,6 +476,7 @@ def run_paths(fn, P=None, limit=4096, start=None, stops=None):
         q.stores = list(p.stores)
         q.events = list(p.events)
         q.end = p.end
+        q.epoch = p.epoch
         return q
 
     def go(p, b):
